@@ -49,7 +49,7 @@ func c19Worker(args []string) error {
 	}
 
 	rng := rand.New(rand.NewSource(p.Seed))
-	cfg := agent.Cfg{N4Addr: p.N4Addr, Datapath: "bess", LogLevel: "error", ReadTimeout: 120, RespTimeout: "2s", MaxReqRetries: 5}
+	cfg := agent.Cfg{N4Addr: p.N4Addr, Datapath: "bess", LogLevel: "warn", ReadTimeout: 120, RespTimeout: "2s", MaxReqRetries: 5}
 
 	w, err := e2e.NewWorld(filepath.Join(p.Dir, "w"), p.AgentBin, filepath.Join(p.Dir, "unused.ndjson"), cfg, 1)
 	if err != nil {
